@@ -54,11 +54,12 @@ TResume == Consume("resume") /\ hold' = FALSE /\ UNCHANGED <<vars, offer>>
 TOp == /\ Consume("op") /\ Op(TL.s, TL.d)
        /\ (TL.res.r = "ok") = (res'.t # "none")
        /\ UNCHANGED <<hold, offer>>
-\* a delivery: the watcher handles the oldest held event ("gone" / "empty": there was nothing to hand over)
+\* a delivery: the driver waits until an event is held (a sender that sleeps after a failed attempt may
+\* still produce one), then the watcher handles the oldest one: the handling itself is TOffered
+\* ("gone" / "empty" / "nosub": there was nothing to hand over)
 TDeliver == /\ Consume("deliver")
-            /\ IF TL.res.r \in {"gone", "empty", "nosub"} THEN UNCHANGED vars /\ (mpc # "loop" \/ q = <<>>)
-               ELSE HandleEvent /\ Head(q).t = TL.res.r
-            /\ UNCHANGED <<hold, offer>>
+            /\ offer' = IF TL.res.r \in {"gone", "empty", "nosub"} THEN "-" ELSE "taken:" \o TL.res.r
+            /\ UNCHANGED <<vars, hold>>
 TPeer == Consume("peer") /\ Advertise(TL.d, TL.s) /\ UNCHANGED <<hold, offer>>
 TInc == /\ Consume("inc") /\ Incoming(TL.d, TL.s)
         /\ (TL.res.r = "nohandler") = (res'.t = "nohandler")
@@ -68,7 +69,8 @@ TClose == /\ Consume("close")
           /\ offer' = IF TL.x = 1 /\ TL.res.r \notin {"closed", "dropped"} THEN TL.res.r ELSE "-"
           /\ UNCHANGED hold
 TSettle == Consume("settle") /\ UNCHANGED <<vars, hold, offer>>
-\* the event offered during close(): taken by the watcher's select before or after the cancellation
+\* the event handed to the watcher by a delivery, or offered during close() (taken by the watcher's
+\* select before or after the cancellation)
 TOffered == /\ offer # "-" /\ HandleEvent /\ "taken:" \o Head(q).t = offer
             /\ offer' = "-" /\ UNCHANGED <<l, hold>>
 \* the goroutines' own steps
